@@ -109,9 +109,14 @@ IsEv(e) == l <= Len(T) /\ Rec.ev = e
 TimeOK(t) == t = now
 
 \* stall bookkeeping: since when has some upload been startable, and which kind of event made it so
-\* an upload whose abort / pause is under way is no candidate
-EligibleT(v) == Eligible(v) /\ v \notin leaving
-SomeStartable == \E v \in Uploads : Startable(v) /\ v \notin leaving
+\* An upload whose abort / pause is under way is no candidate.  While such an upload is still QUEUED it may have been
+\* the one of its user that was handed the slot (one per user, the first queued one) - a hand-out that never shows,
+\* because the abort / pause cancels the task before its first step; so the user's other uploads are no candidates
+\* either until the call has returned.
+OnTheWayOut(v) == \/ v \in leaving
+                  \/ \E w \in leaving : Owner(w) = Owner(v) /\ st[w] = "QUEUED"
+EligibleT(v) == Eligible(v) /\ ~OnTheWayOut(v)
+SomeStartable == \E v \in Uploads : Startable(v) /\ ~OnTheWayOut(v)
 \* For the report: `cause` is the kind of event that began the stall, `culprit` the last change of the (lowest)
 \* upload that is startable and is not started.
 Stall(kind) ==
@@ -120,7 +125,7 @@ Stall(kind) ==
                              ELSE stallSince' = now' /\ cause' = kind
        ELSE stallSince' = -1 /\ cause' = "none"
   /\ culprit' = IF SomeStartable'
-                  THEN LET c == {v \in Uploads : (Startable(v) /\ v \notin leaving)'}
+                  THEN LET c == {v \in Uploads : (Startable(v) /\ ~OnTheWayOut(v))'}
                            b == {v \in c : why'[v][2]}          \* ... preferably one whose own task was in the way
                            d == IF b # {} THEN b ELSE c
                        IN why'[CHOOSE v \in d : \A w \in d : v <= w][1]
